@@ -35,6 +35,15 @@ type updProg struct {
 	RetErr   bool `json:"retErr"`
 }
 
+type defProg struct {
+	SrcPtr  bool `json:"srcPtr"`
+	TgtPtr  bool `json:"tgtPtr"`
+	FuncPtr bool `json:"funcPtr"`
+	FuncSrc bool `json:"funcSrc"`
+	Upd     bool `json:"upd"`
+	IgnoreB bool `json:"ignoreB"`
+}
+
 type structScen struct {
 	Kind    string          `json:"kind"`
 	Prog    json.RawMessage `json:"prog"`
@@ -91,7 +100,7 @@ func cmdStruct(args []string) {
 	b := hx.NewBatch(*work)
 	b.WriteGoMod()
 	var src strings.Builder
-	src.WriteString("package p\n\nimport \"" + b.Mod + "/q\"\n\nvar _ q.TQ\n\nfunc Fn(x int) int { return x }\n\ntype FPS struct{ V int }\ntype UN struct{ X int }\ntype US struct {\n\tA int\n\tN UN\n\tP *int\n\tL []int\n}\ntype UT struct {\n\tA int\n\tN UN\n\tP *int\n\tL []int\n}\n")
+	src.WriteString("package p\n\nimport \"" + b.Mod + "/q\"\n\nvar _ q.TQ\n\nfunc Fn(x int) int { return x }\n\ntype DS struct {\n\tA int\n\tB int\n}\ntype DT struct {\n\tA int\n\tB int\n}\ntype FPS struct{ V int }\ntype UN struct{ X int }\ntype US struct {\n\tA int\n\tN UN\n\tP *int\n\tL []int\n}\ntype UT struct {\n\tA int\n\tN UN\n\tP *int\n\tL []int\n}\n")
 	type drvCall struct {
 		Args []any `json:"args"`
 		Dump []int `json:"dump"`
@@ -99,6 +108,7 @@ func cmdStruct(args []string) {
 	drvLines := make([]map[string]any, len(scens))
 	fprogs := make([]fieldProg, len(scens))
 	uprogs := make([]updProg, len(scens))
+	dprogs := make([]defProg, len(scens))
 	head := func(i int) string {
 		return fmt.Sprintf("// goverter:output:file ../gen/c%d.go\n// goverter:output:package %s/gen\n", i, b.Mod)
 	}
@@ -194,6 +204,40 @@ func cmdStruct(args []string) {
 				src.WriteString("\t// goverter:" + line + "\n")
 			}
 			fmt.Fprintf(&src, "\tConv(source %s) %s\n}\n", st, tt)
+		case "default":
+			var p defProg
+			hx.Must(json.Unmarshal(s.Prog, &p))
+			dprogs[i] = p
+			st, tt, ft, farg, fbody := "DS", "DT", "DT", "", "DT{A: 100, B: 200}"
+			if p.SrcPtr {
+				st = "*DS"
+			}
+			if p.TgtPtr {
+				tt = "*DT"
+			}
+			if p.FuncPtr {
+				ft, fbody = "*DT", "&DT{A: 100, B: 200}"
+			}
+			if p.FuncSrc {
+				farg = "source " + st
+			}
+			fmt.Fprintf(&src, "\nfunc NewT%d(%s) %s { return %s }\n\n// goverter:converter\n%stype C%d interface {\n\t// goverter:default NewT%d\n", i, farg, ft, fbody, head(i), i, i)
+			if p.Upd {
+				src.WriteString("\t// goverter:default:update\n")
+			}
+			if p.SrcPtr && !p.TgtPtr {
+				src.WriteString("\t// goverter:useZeroValueOnPointerInconsistency\n")
+			}
+			if p.IgnoreB {
+				src.WriteString("\t// goverter:ignore B\n")
+			}
+			fmt.Fprintf(&src, "\tConv(source %s) %s\n}\n", st, tt)
+			var val any = stv(lit(5), lit(6))
+			ins := []any{val}
+			if p.SrcPtr {
+				ins = []any{ptrv(val), nilv()}
+			}
+			drvLines[i]["ins"] = ins
 		case "update":
 			var p updProg
 			hx.Must(json.Unmarshal(s.Prog, &p))
@@ -326,6 +370,30 @@ func cmdStruct(args []string) {
 		case "acc":
 			base["side"], base["setting"] = s.Side, s.Setting
 			obs.Write(base)
+		case "default":
+			if o.Gen != "ok" || badc {
+				base["prog"], base["panic"], base["srcNil"], base["res"] = s.Prog, false, false, map[string]any{"nil": true, "A": 0, "B": 0}
+				obs.Write(base)
+				continue
+			}
+			for _, r := range byID[i] {
+				nExec++
+				j := int(r["j"].(float64))
+				rec := map[string]any{"id": i, "kind": "default", "gen": o.Gen, "why": "", "compiles": true, "prog": s.Prog, "panic": r["panic"] == true, "srcNil": dprogs[i].SrcPtr && j == 1}
+				res := map[string]any{"nil": true, "A": 0, "B": 0}
+				if r["panic"] != true {
+					out := r["out"].(map[string]any)
+					if out["k"] == "p" {
+						out = out["e"].(map[string]any)
+					}
+					if out["k"] == "st" {
+						f := out["fs"].([]any)
+						res = map[string]any{"nil": false, "A": litOf(f[0]), "B": litOf(f[1])}
+					}
+				}
+				rec["res"] = res
+				obs.Write(rec)
+			}
 		case "update":
 			if o.Gen != "ok" || badc {
 				base["prog"], base["panic"], base["srcNil"], base["nonzero"], base["post"] = s.Prog, false, false, []string{}, []string{}
